@@ -97,6 +97,40 @@ def shape_attrs_fail(rng):
     return case, None
 
 
+def traced_fails(case):
+    """the same operation on traced operands (Function nodes): the node's value, shape and zeroth coefficient are those of
+    the direct call"""
+    from algopy import CGraph, Function
+    st, direct = ops.call(case)
+    if st != 'ok':
+        return None
+    try:
+        with np.errstate(all='ignore'):
+            cg = CGraph()
+            raw = ops.build_args(case)
+            fargs = [Function(a) if isinstance(a, UTPM) else a for a in raw]
+            r = ops.OPS[case['op']]['call'](fargs)
+            cg.trace_off()
+    except Exception:
+        return None          # not every operation can be recorded (C03 allows raising at recording time)
+    if isinstance(r, Function) and isinstance(r.x, tuple):
+        r = list(r.x)
+    outs = r if isinstance(r, (list, tuple)) else [r]
+    vals = []
+    for o in outs:
+        v = o.x if isinstance(o, Function) else o
+        vals.append(np.array(v.data) if isinstance(v, UTPM) else v)
+    if len(vals) != len(direct):
+        return 'traced-arity-%s: %d outputs when traced, %d when called directly' % (case['op'], len(vals), len(direct))
+    for i, (a, b) in enumerate(zip(vals, direct)):
+        if isinstance(b, np.ndarray):
+            if not isinstance(a, np.ndarray) or a.shape != b.shape:
+                return 'traced-shape-%s: output %d of the traced call has shape %s, the direct call %s' % (case['op'], i, getattr(a, 'shape', None), b.shape)
+            if not np.array_equal(a, b, equal_nan=True):
+                return 'traced-value-%s: output %d of the traced call differs from the direct call (max diff %s)' % (case['op'], i, maxdiff(a, b))
+    return None
+
+
 CMP = {'lt': operator.lt, 'le': operator.le, 'gt': operator.gt, 'ge': operator.ge, 'eq': operator.eq}
 
 
@@ -187,7 +221,7 @@ def replay_case(ctx, case):
         return None
     if 'fn' in case:
         return c01.run_case(ctx, case)
-    return zeroth_fails(case)
+    return zeroth_fails(case) or traced_fails(case)
 
 
 def run(ctx):
@@ -208,7 +242,7 @@ def run(ctx):
                 ctx.nontrivial += 1
         if len(ctx.samples) < 3 and ops.nontrivial(case):
             ctx.samples.append(to_jsonable(case))
-        f = zeroth_fails(case)
+        f = zeroth_fails(case) or (traced_fails(case) if not case['op'].startswith('ibin') else None)
         if f:
             ctx.report(case, 'failure', f)
     for i in range(150 if ctx.tier == 'quick' else 2000):
